@@ -31,19 +31,19 @@ def classify(known, c, r):
         return "parameter_columns_resolved_against_all_query_levels"
     import re
     q = c["queries"].split("\n", 1)[1]
-    marks = [re.sub(r"[\s'\"]", "", m).replace("sqlc.arg(", "@").rstrip(")") for m in re.findall(r"\$\d+|sqlc\.arg\([^)]*\)|@\w+", q)]
+    marks = [re.sub(r"[\s'\"]", "", m.lower()).replace("sqlc.arg(", "@").rstrip(")") for m in re.findall(r"(?i)\$\d+|sqlc\.arg\([^)]*\)|@\w+", q)]
     if v != 0 and r.get("ok"):
         if "zq." in q:
             return "unknown_qualifier_next_to_parameter_accepted"
         if len(marks) != len(set(marks)):
             return "repeated_placeholder_first_context_only"
-        if re.search(r"(\$\d+|sqlc\.arg\([^)]*\)|@\w+)\s*(=|<|>|LIKE|\|\||!)", q):
+        if re.search(r"(?i)(\$\d+|sqlc\.arg\([^)]*\)|@\w+)\s*(=|<|>|LIKE|\|\||!)", q):
             return "placeholder_left_operand_unresolved"
-        if re.search(r"(\$\d+|sqlc\.arg\([^)]*\)|@\w+)::", q):
+        if re.search(r"(?i)(\$\d+|sqlc\.arg\([^)]*\)|@\w+)::", q):
             return "cast_placeholder_column_unresolved"
         if c.get("kind") == "insert" and "SELECT" in q:
             return "insert_select_source_unresolved"
-    if v == 0 and not r.get("ok") and re.search(r"(\$\d+|sqlc\.arg\([^)]*\)|@\w+)\s+AS\s", q):
+    if v == 0 and not r.get("ok") and re.search(r"(?i)(\$\d+|sqlc\.arg\([^)]*\)|@\w+)\s+AS\s", q):
         return "placeholder_result_column_resolved_as_column"
     return None
 
@@ -85,7 +85,9 @@ def multi_statement(rep, rng, tier):
     for schema, stmts in cases:
         together, alone = res[pos], res[pos + 1:pos + 1 + len(stmts)]
         pos += 1 + len(stmts)
-        if together.get("stage") == "schema" or any("panic" in r for r in [together] + alone):
+        syntax = lambda r: any("syntax error" in (e.get("msg") or "") for e in (r.get("errs") or []))
+        if together.get("stage") == "schema" or any("panic" in r for r in [together] + alone) or syntax(together) or any(syntax(r) for r in alone):
+            # a file that does not parse is rejected as a whole (one diagnostic for the file), not statement by statement
             rep.count("multi-statement:skipped")
             continue
         rep.case(("multi-statement", schema, tuple(stmts)), nontrivial=True)
